@@ -28,7 +28,30 @@ type modelField struct {
 	elems []string // list elements / lines of the model
 }
 
-func modelFor(name, kind string) modelField {
+func modelFor(name, kind string, single bool) modelField {
+	if single {
+		// the smallest non-trivial document: every list has exactly one element (with blanks inside where the
+		// syntax allows them), nothing is folded
+		switch {
+		case kind == kAL:
+			return modelField{kind, " amd64", []string{"amd64"}}
+		case kind == kR:
+			return modelField{kind, " foo", []string{"foo"}}
+		case kind == kLc:
+			return modelField{kind, " John Doe <jdoe@example.com>", []string{"John Doe <jdoe@example.com>"}}
+		case kind == kLb:
+			return modelField{kind, " only-one", []string{"only-one"}}
+		case kind == kM:
+			return modelField{kind, " one line only", nil}
+		case kind == kH5:
+			h := hashHex["md5"]
+			return modelField{kind, "\n " + h + " 1 admin optional f_1_amd64.deb", []string{"md5|" + h + "|1|f_1_amd64.deb|admin|optional"}}
+		case strings.HasPrefix(kind, "checksum lines ("):
+			alg := strings.TrimSuffix(strings.TrimPrefix(kind, "checksum lines ("), ")")
+			h := hashHex[alg]
+			return modelField{kind, "\n " + h + " 0 f_1.dsc", []string{alg + "|" + h + "|0|f_1.dsc"}}
+		}
+	}
 	switch {
 	case kind == kS:
 		return modelField{kind, " value of " + strings.ToLower(name), nil}
@@ -100,7 +123,16 @@ func c10Doc(p *Prog, rp *Report) {
 		embedProbe = mkProbeType("SourceEntryWithBestChecksums", []probeField{{"Package", types.Typ[types.String], "", false}, {"BestChecksums", bc, "", true}, {"Directory", types.Typ[types.String], "", false}})
 		docs = append(docs, "probe.SourceEntryWithBestChecksums")
 	}
-	for _, doc := range docs {
+	type variant struct {
+		doc    string
+		single bool
+	}
+	var variants []variant
+	for _, d := range docs {
+		variants = append(variants, variant{d, false}, variant{d, true})
+	}
+	for _, vr := range variants {
+		doc := vr.doc
 		parts := strings.SplitN(doc, ".", 2)
 		n := p.Named(parts[0], parts[1])
 		table := docTables[doc]
@@ -112,6 +144,9 @@ func c10Doc(p *Prog, rp *Report) {
 			continue
 		}
 		pos := p.Pos(n.Obj().Pos())
+		if vr.single {
+			doc += ":one-element-lists"
+		}
 		var names []string
 		for k := range table {
 			names = append(names, k)
@@ -120,7 +155,7 @@ func c10Doc(p *Prog, rp *Report) {
 		model := map[string]modelField{}
 		var text strings.Builder
 		for _, k := range names {
-			mf := modelFor(k, table[k])
+			mf := modelFor(k, table[k], vr.single)
 			model[k] = mf
 			text.WriteString(k + ":" + mf.text + "\n")
 		}
